@@ -8,6 +8,18 @@ class PacketSequencer:
     def invariant(self):
         return [0 <= self._counter, self._counter < 10]
 
+    @staticmethod
+    def native_generate(rng, nat):
+        """bounded stand-in / replay side only: a sequencer after a short real history"""
+        from eolib.packet.packet_sequencer import PacketSequencer as Real
+        q = Real(nat.gen("eolib.packet.sequence_start.SequenceStart", rng))
+        for _ in range(rng.randrange(0, 13)):
+            if rng.random() < 0.2:
+                q.set_sequence_start(nat.gen("eolib.packet.sequence_start.SequenceStart", rng))
+            else:
+                q.next_sequence()
+        return q
+
 
 @contract("eolib.packet.packet_sequencer.PacketSequencer.__init__")
 class init:
